@@ -359,7 +359,7 @@ PLANS["C13"] = {
     "level": "exploration",
     "technique": "log-checking monitor (untorn, membership, never-observable, per-thread monotone, recent, final) over (a) Miri many-seeds executions of the real atomics (weak-memory emulation + seeded scheduler + data-race detector, no harness synchronisation during the run) and (b) native multi-thread stress with delay injection at every atomic access through hook H3 (ticket-ordered traces)",
     "rule": ("cases = executions of a multi-thread workload on one AtomicBaseTime: writers issue globally unique base times through update / try_update "
-             "(mostly increasing, one fifth deliberately below the thread's own newest completed one) and snapshot in between; readers only snapshot; "
+             "(mostly increasing, one fifth deliberately below the thread's own newest completed one; in a share of the runs also update() calls with a voucher for another value, which must panic, poison the writer lock and leave no trace) and snapshot in between; readers only snapshot; "
              "every thread logs into its own buffer and logs are checked after join. (a) under Miri: 2 writers x 4 updates, 2 readers x 6 snapshots, "
              "one execution per Miri seed (each seed = a different legal schedule and reads-from choice under Miri's C++20-style store-buffer "
              "emulation), Miri itself reports data races / UB / panics; (b) native: 4 writers x 25 updates + 4 readers x 50 snapshots per run, seeded "
@@ -374,13 +374,15 @@ PLANS["C13"] = {
                     "thread spawn/join are the only harness-induced happens-before edges in (a)"],
     "required_features": ["abt.plain_runs", "abt.stress_runs", "abt.snapshots_that_retried", "abt.snapshots_overlapping_1_completed_update",
                           "abt.snapshots_overlapping_2_completed_updates", "abt.try_update_returned_false", "abt.stale_updates_issued",
-                          "abt.snapshots_of_another_threads_update"],
-    "quick": [abt_miri(0, 96),
+                          "abt.snapshots_of_another_threads_update", "abt.writer_lock_poisoned_by_panicking_update"],
+    "quick": [abt_miri(0, 72),
+              abt_miri(72, 96, "", poison=250),
               R("abt", "rel", mode="stress", cases=4000)],
     "thorough": [abt_miri(0, 1024),
                  abt_miri(1024, 2048, " -Zmiri-preemption-rate=0.1"),
                  abt_miri(2048, 3072, " -Zmiri-preemption-rate=0.3", writers=3, updates=3, readers=1, snapshots=8),
                  abt_miri(3072, 4096, " -Zmiri-preemption-rate=0.05", writers=1, updates=8, readers=3, snapshots=5),
+                 abt_miri(4096, 4608, "", poison=250),
                  R("abt", "rel", mode="stress", cases=200000),
                  R("abt", "dbg", mode="stress", cases=20000)],
 }
